@@ -417,6 +417,17 @@ pub fn validate_amount_decimals(amount: f64, currency: &str) -> Result<(), Parse
 /// - Amount format is invalid
 /// - Decimal precision exceeds currency limit (C03)
 pub fn parse_amount_with_currency(input: &str, currency: &str) -> Result<f64, ParseError> {
+    // The amount component of the currency/amount fields is 15d: at most 15 characters,
+    // decimal separator included
+    if input.len() > 15 {
+        return Err(ParseError::InvalidFormat {
+            message: format!(
+                "Amount must not exceed 15 characters, found {}",
+                input.len()
+            ),
+        });
+    }
+
     let amount = parse_amount(input)?;
 
     // C03: count the decimals as they are written. The float rendering used by
